@@ -20,11 +20,45 @@ pub const R6: &str = "R6:toml::Table::try_into";
 pub const R7A: &str = "R7a:toml::de::ValueDeserializer";
 pub const R7B: &str = "R7b:toml_edit::de::ValueDeserializer";
 
+// Alias routes: further public entry points that are thin forwarders to one of the routes above.
+// They run in a seeded subset of scenarios (`Scenario::alias` bit mask) so that the common routes
+// keep their share of the budget.
+pub const R2S: &str = "R2s:str::parse::<toml_edit::de::Deserializer>";
+pub const R2P: &str = "R2p:toml_edit::de::Deserializer::parse(&str)";
+pub const R1D: &str = "R1d:toml::de::Deserializer::new";
+pub const R5P: &str = "R5p:str::parse::<toml::Value>().try_into";
+pub const R6P: &str = "R6p:str::parse::<toml::Table>().try_into";
+pub const R5I: &str = "R5i:toml::Value::into_deserializer";
+pub const R6I: &str = "R6i:toml::Table::into_deserializer";
+pub const ALIAS_ROUTES: &[&str] = &[R2S, R2P, R1D, R5P, R6P, R5I, R6I];
+
+pub fn alias_bit(route: &str) -> Option<u32> {
+    ALIAS_ROUTES.iter().position(|r| *r == route).map(|i| 1u32 << i)
+}
+
+/// Is this route to be run in this scenario? Base routes: unless the minimiser narrowed the
+/// scenario to other routes; alias routes: when selected by the scenario's alias mask (or named
+/// explicitly by a narrowed scenario).
+pub fn route_on(sc: &crate::common::Scenario, route: &str) -> bool {
+    match alias_bit(route) {
+        Some(bit) => {
+            if sc.only.is_empty() {
+                sc.alias & bit != 0
+            } else {
+                sc.only.iter().any(|o| o == route)
+            }
+        }
+        None => sc.wants(route),
+    }
+}
+
 /// document routes
 pub const DOC_ROUTES: &[&str] = &[R1, R2, R3, R4, R4I, R4J, R4K, R4V, R5, R6];
 /// routes that have the source text and therefore spans
-pub const TEXT_ROUTES: &[&str] = &[R1, R2, R3, R4I, R4J];
-pub const ALL_ROUTES: &[&str] = &[R1, R2, R3, R4, R4I, R4J, R4K, R4V, R5, R6, R7A, R7B, R7C];
+pub const TEXT_ROUTES: &[&str] = &[R1, R2, R3, R4I, R4J, R2S, R2P, R1D];
+/// document routes including the alias routes
+pub const DOC_ROUTES_X: &[&str] = &[R1, R2, R3, R4, R4I, R4J, R4K, R4V, R5, R6, R2S, R2P, R1D, R5P, R6P, R5I, R6I];
+pub const ALL_ROUTES: &[&str] = &[R1, R2, R3, R4, R4I, R4J, R4K, R4V, R5, R6, R7A, R7B, R7C, R2S, R2P, R1D, R5P, R6P, R5I, R6I];
 
 pub fn has_text(route: &str) -> bool {
     TEXT_ROUTES.contains(&route)
@@ -92,6 +126,33 @@ pub fn run_route_g<D: serde::de::DeserializeOwned>(route: &str, text: &str) -> R
             let doc = toml_edit::ImDocument::parse(text.to_string()).map_err(|e| e_tomlerr(e, true))?;
             let v = doc.as_item().clone().into_value().map_err(|_| RouteErr { message: "HARNESS: root is not a value".into(), span: None, rendered: String::new(), pre_peer: true, obj: std::rc::Rc::new(String::new()) })?;
             D::deserialize(v.into_deserializer()).map_err(|e| e_edit(e, false))
+        }
+        R2S => {
+            let de = text.parse::<toml_edit::de::Deserializer>().map_err(|e| e_edit(e, true))?;
+            D::deserialize(de).map_err(|e| e_edit(e, false))
+        }
+        R2P => {
+            let de = toml_edit::de::Deserializer::parse(text).map_err(|e| e_edit(e, true))?;
+            D::deserialize(de).map_err(|e| e_edit(e, false))
+        }
+        R1D => D::deserialize(toml::de::Deserializer::new(text)).map_err(|e| e_toml(e, false)),
+        R5P => {
+            let v = text.parse::<toml::Value>().map_err(|e| e_toml(e, true))?;
+            v.try_into::<D>().map_err(|e| e_toml(e, false))
+        }
+        R6P => {
+            let t = text.parse::<toml::Table>().map_err(|e| e_toml(e, true))?;
+            t.try_into::<D>().map_err(|e| e_toml(e, false))
+        }
+        R5I => {
+            use serde::de::IntoDeserializer;
+            let v = toml::from_str::<toml::Value>(text).map_err(|e| e_toml(e, true))?;
+            D::deserialize(v.into_deserializer()).map_err(|e| e_toml(e, false))
+        }
+        R6I => {
+            use serde::de::IntoDeserializer;
+            let t = toml::from_str::<toml::Table>(text).map_err(|e| e_toml(e, true))?;
+            D::deserialize(t.into_deserializer()).map_err(|e| e_toml(e, false))
         }
         R5 => {
             let v = toml::from_str::<toml::Value>(text).map_err(|e| e_toml(e, true))?;
